@@ -185,6 +185,34 @@ fn fam_batch(tag: &str, out: &mut Vec<Case>) {
         }
         Ok(())
     })));
+    // per-member transcript contexts: every proof must be checked against ITS transcript, also beyond the chunk limit
+    for &k in &[2usize, 256, 257, 300] {
+        let id = format!("{}:batch:contexts:k={}", tag, k);
+        let idc = id.clone();
+        out.push((id, Box::new(move || {
+            let mut rng = rng_for(&idc);
+            let a = make_member(&mut rng, 4, 1, 1, 1, false, None, b"ctxA")?;
+            let b = make_member(&mut rng, 4, 1, 1, 1, false, None, b"ctxB")?;
+            let run = |swap: Option<(usize, usize)>| -> Result<bool, String> {
+                let mut st = vec![]; let mut pr = vec![]; let mut tr = vec![];
+                for i in 0..k {
+                    let use_a = (i * 5 + 1) % 3 != 0;
+                    let m = if use_a { &a } else { &b };
+                    st.push(m.statement.clone()); pr.push(m.proof.clone());
+                    tr.push(Transcript::new(if use_a { b"ctxA" } else { b"ctxB" }));
+                }
+                if let Some((x, y)) = swap { tr.swap(x, y); }
+                Ok(RangeProof::verify_batch(&mut tr, &st, &pr, VerifyAction::VerifyOnly).is_ok())
+            };
+            if !run(None)? { return Err(format!("batch of {} whose proofs match their own transcript contexts was rejected", k)); }
+            // positions 0 (ctxB) and 1 (ctxA) have different contexts; so have k-1 / k-2 in general: find a differing pair at the end
+            let ctx_is_a = |i: usize| (i * 5 + 1) % 3 != 0;
+            let mut pairs = vec![(0usize, 1usize)];
+            for i in (1..k).rev() { if ctx_is_a(i) != ctx_is_a(i - 1) { pairs.push((i - 1, i)); break; } }
+            for (x, y) in pairs { if ctx_is_a(x) != ctx_is_a(y) && run(Some((x, y)))? { return Err(format!("batch of {} with the transcripts of members {} and {} swapped was accepted", k, x, y)); } }
+            Ok(())
+        })));
+    }
     let id = format!("{}:batch:shapes", tag);
     out.push((id, Box::new(move || {
         let mut rng = rng_for("shapes");
@@ -475,13 +503,13 @@ fn families(prop: &str) -> Vec<Case> {
     let mut v: Vec<Case> = vec![];
     match prop {
         "C01" | "C12" => { fam_completeness(prop, &mut v); if prop == "C12" { fam_gens(prop, &mut v); } }
-        "C02" | "C04" | "C05" => { fam_binding(prop, &mut v); fam_completeness(prop, &mut v); }
+        "C02" | "C04" | "C05" => { fam_binding(prop, &mut v); fam_batch(prop, &mut v); fam_completeness(prop, &mut v); }
         "C03" | "C08" => { fam_batch(prop, &mut v); }
         "C06" | "C07" => { fam_prover(prop, &mut v); if prop == "C07" { fam_binding(prop, &mut v); } }
         "C09" | "C10" => { fam_completeness(prop, &mut v); fam_batch(prop, &mut v); }
         "C11" => { fam_gens(prop, &mut v); }
         "C15" => { fam_codec(prop, &mut v); }
-        "C16" => { fam_panics(prop, &mut v); fam_codec(prop, &mut v); }
+        "C16" => { fam_panics(prop, &mut v); fam_codec(prop, &mut v); fam_batch(prop, &mut v); }
         "C17" => { fam_ctors(prop, &mut v); }
         _ => {}
     }
